@@ -71,3 +71,43 @@ Theorem C01_multinode_block_owner_open : forall ns bs ops,
 Proof. intros ns bs ops. apply mrun_Own, mopen_Own. Qed.
 Print Assumptions C01_multinode_block_owner_open.
 End MultiNode.
+
+(* ---- the compress (.Z) read filter: an LZW decoder fed by hostile input (Codec/LzwDefs.v) ---- *)
+From LA Require Codec.LzwDefs Codec.LzwProofs.
+Module Lzw.
+Import Codec.LzwDefs Codec.LzwProofs.
+Local Open Scope N_scope.
+
+(* whatever the parameters byte that compress_bidder_init accepts and whatever follows it, the decoder starts in a
+   state that satisfies the invariant, with no array indexed outside its bounds *)
+Theorem C01_lzw_init_invariant : forall flags rest s0,
+  init_state flags rest = Some s0 -> Inv s0 /\ oob s0 = false.
+Proof. exact init_inv. Qed.
+Print Assumptions C01_lzw_init_invariant.
+
+(* one next_code from ANY state that satisfies the invariant, on ANY remaining input: the invariant holds again,
+   suffix[]/prefix[] (65536 entries) and mask[] (17) were indexed inside their bounds, the expansion of the code
+   terminated having pushed at most 65282 bytes onto the 65300-byte stack, at least one byte came out, and the
+   recursion on reset codes ends: "stuck" (the model's fuel running out) needs more fuel than there is input *)
+Theorem C01_lzw_next_code_safe : forall fuel s r s', Inv s -> oob s = false -> next_code fuel s = (r, s') ->
+  Inv s' /\ oob s' = false /\
+  (forall out pushed, r = NOk out pushed -> pushed <= 65282 /\ out <> []) /\
+  (r = NStuck -> (fuel <= length (inp s))%nat) /\
+  (length (inp s') <= length (inp s))%nat.
+Proof. exact next_code_safe. Qed.
+Print Assumptions C01_lzw_next_code_safe.
+
+(* 65282 < 65300: the stack is large enough *)
+Theorem C01_lzw_stack_suffices : 65282 < STACK_SIZE.
+Proof. reflexivity. Qed.
+Print Assumptions C01_lzw_stack_suffices.
+
+(* non-vacuity: a KwKwK chain decodes to a run; "next free entry, a literal, the same again" behind a reset code is
+   refused (fatal, nothing delivered); the same three codes at the very start of the stream: compress_bidder_init
+   ignores what its first next_code returns, the refused code is skipped and decoding goes on - inside the invariant *)
+Example C01_lzw_nonvacuous :
+  decode [144; 65; 2; 10; 28; 8] = Some ([[65; 65; 65; 65; 65; 65; 65; 65; 65; 65]], 0, false) /\
+  decode [144; 65; 0; 2; 0; 0; 0; 1; 133; 4; 4] = Some ([], 1, false) /\
+  decode [144; 1; 131; 4; 4; 0; 0; 0] = Some ([[65; 65; 65; 0; 0; 0]], 0, false).
+Proof. vm_compute. repeat split; reflexivity. Qed.
+End Lzw.
